@@ -2,6 +2,7 @@ mod common;
 mod duo;
 mod exhaust;
 mod props;
+mod solo;
 
 use common::*;
 
@@ -81,6 +82,9 @@ fn main() {
         "C01" => ("fault_enumeration", props::c01::run(&ctx)),
         "C02" => ("fault_enumeration", props::c02::run(&ctx)),
         "C03" => ("fault_enumeration", props::c03::run(&ctx)),
+        "C04" => ("model_checking", props::c04::run(&ctx)),
+        "C05" => ("model_checking", props::c05::run(&ctx)),
+        "C07" => ("model_checking", props::c07::run(&ctx)),
         "C08" => ("fault_enumeration", props::c08::run(&ctx)),
         "C09" => ("model_checking", exhaust::seqnr::run(&ctx)),
         "C11" => ("model_checking", exhaust::wire::run(&ctx)),
@@ -104,6 +108,7 @@ fn replay_file(_ctx: &Ctx, path: &str) -> i32 {
     match engine {
         "exhaust" => exhaust::replay(&v),
         "duo" => duo::replay(&v),
+        "solo" => solo::bfs::replay(&v),
         _ => machinery_error(&format!("unknown engine {engine:?} in replay file")),
     }
 }
